@@ -229,11 +229,17 @@ class FourierSeries:
             The real-valued time series.
         """
         if ifftn is None:
-            ifftn = kernels.nb_irfft
-        if not callable(ifftn):
+            # A real FFT of n samples has n // 2 + 1 bins for both n = 2k and
+            # n = 2k + 1: take the length from the header when it is consistent.
+            n_even = 2 * (len(self.data) - 1)
+            nsamples = self.header.nsamples
+            n_out = nsamples if nsamples in {n_even, n_even + 1} else n_even
+            tim_ar = kernels.nb_irfft(self.data, n_out)
+        elif not callable(ifftn):
             msg = f"Input ifftn is not callable: {ifftn}"
             raise TypeError(msg)
-        tim_ar = ifftn(self.data)
+        else:
+            tim_ar = ifftn(self.data)
         return timeseries.TimeSeries(tim_ar, self.header.new_header())
 
     def form_spec(self, *, interpolate: bool = False) -> PowerSpectrum:
